@@ -61,6 +61,22 @@ theorem alookup_some_key_mem {k : κ} {v : β} {d : List (κ × β)} (h : alooku
   have := alookup_some_mem h
   exact List.mem_map.mpr ⟨(k, v), this, rfl⟩
 
+theorem alookup_of_mem_nodup {k : κ} {v : β} {d : List (κ × β)} (hnd : (akeys d).Nodup)
+    (h : (k, v) ∈ d) : alookup k d = some v := by
+  induction d with
+  | nil => cases h
+  | cons kv t ih =>
+    obtain ⟨k', v'⟩ := kv
+    rw [alookup_cons]
+    simp only [akeys, List.map_cons, List.nodup_cons] at hnd
+    rcases List.mem_cons.mp h with h | h
+    · cases h; simp
+    · have hk : k' ≠ k := by
+        intro e; subst e
+        exact hnd.1 (List.mem_map.mpr ⟨(k', v), h, rfl⟩)
+      simp only [hk, if_false]
+      exact ih hnd.2 h
+
 /-! ### lists as sets -/
 
 @[simp] theorem mem_sinsert {x y : β} {l : List β} : y ∈ sinsert x l ↔ y = x ∨ y ∈ l := by
